@@ -385,6 +385,8 @@ pub struct Variant {
     pub asym_ns: i64,
     /// configured priority1 of the daemon (C05: 128, 127, 129, 128 by worker index mod 4)
     pub own_p1: u8,
+    /// configured priority2 of the daemon (C05: 128, 128, 127, 129 by worker index mod 4)
+    pub own_p2: u8,
     /// C08, workers 4..7: the instance is configured slave-only (4, 6); the port on the second segment (5, 6) or on
     /// the first (7) is configured master-only
     pub slave_only: bool,
@@ -395,14 +397,14 @@ impl Variant {
     pub fn from_index(first: u64, prop: &str) -> Variant {
         let alt = (first / 4) % 2 == 1;
         let other_domain = first % 3 == 1;
-        Variant { path_trace: first % 2 == 1, udp: (first / 2) % 2 == 1, swap: alt && prop != "C12" && prop != "C06" && prop != "C09" && prop != "C08", p2p: (alt && (prop == "C12" || prop == "C09")) || prop == "C14", sdo: if other_domain { 0x1a5 } else { 0 }, domain: if other_domain { 7 } else { 0 }, alt, aml: (prop == "C14" || prop == "C07") && first % 2 == 1, long_timeout: prop == "C14", slow_other_port: prop == "C06" && alt, asym_ns: if prop == "C09" { [0i64, -2_000_000, 1_500_000, 12_345_678][(first % 4) as usize] } else { 0 }, own_p1: if prop == "C05" { [128u8, 127, 129, 128][(first % 4) as usize] } else { 128 }, slave_only: prop == "C08" && alt && first % 2 == 0, master_only: if prop == "C08" && alt { [None, Some('b'), Some('b'), Some('a')][(first % 4) as usize] } else if prop == "C07" && alt { Some('b') } else { None } }
+        Variant { path_trace: first % 2 == 1, udp: (first / 2) % 2 == 1, swap: alt && prop != "C12" && prop != "C06" && prop != "C09" && prop != "C08", p2p: (alt && (prop == "C12" || prop == "C09")) || prop == "C14", sdo: if other_domain { 0x1a5 } else { 0 }, domain: if other_domain { 7 } else { 0 }, alt, aml: (prop == "C14" || prop == "C07") && first % 2 == 1, long_timeout: prop == "C14", slow_other_port: prop == "C06" && alt, asym_ns: if prop == "C09" { [0i64, -2_000_000, 1_500_000, 12_345_678][(first % 4) as usize] } else { 0 }, own_p1: if prop == "C05" { [128u8, 127, 129, 128][(first % 4) as usize] } else { 128 }, own_p2: if prop == "C05" { [128u8, 128, 127, 129][(first % 4) as usize] } else { 128 }, slave_only: prop == "C08" && alt && first % 2 == 0, master_only: if prop == "C08" && alt { [None, Some('b'), Some('b'), Some('a')][(first % 4) as usize] } else if prop == "C07" && alt { Some('b') } else { None } }
     }
     pub fn index(&self) -> u64 {
         self.path_trace as u64 + 2 * self.udp as u64 + 4 * self.alt as u64
     }
     pub fn from_render(v: &Value, prop: &str) -> Variant {
         let alt = v["variant_alt"].as_bool().unwrap_or(false);
-        let mut var = Variant { path_trace: v["path_trace"].as_bool().unwrap_or(false), udp: v["transport"].as_str() == Some("udp-ipv4"), swap: alt && prop != "C12" && prop != "C06" && prop != "C09" && prop != "C08", p2p: (alt && (prop == "C12" || prop == "C09")) || prop == "C14", sdo: 0, domain: 0, alt, aml: false, long_timeout: prop == "C14", slow_other_port: prop == "C06" && alt, asym_ns: 0, own_p1: 128, slave_only: false, master_only: None };
+        let mut var = Variant { path_trace: v["path_trace"].as_bool().unwrap_or(false), udp: v["transport"].as_str() == Some("udp-ipv4"), swap: alt && prop != "C12" && prop != "C06" && prop != "C09" && prop != "C08", p2p: (alt && (prop == "C12" || prop == "C09")) || prop == "C14", sdo: 0, domain: 0, alt, aml: false, long_timeout: prop == "C14", slow_other_port: prop == "C06" && alt, asym_ns: 0, own_p1: 128, own_p2: 128, slave_only: false, master_only: None };
         // sdoId / domain are a function of the worker index
         let again = Variant::from_index(var.index(), prop);
         var.sdo = again.sdo;
@@ -410,6 +412,7 @@ impl Variant {
         var.aml = again.aml;
         var.asym_ns = again.asym_ns;
         var.own_p1 = again.own_p1;
+        var.own_p2 = again.own_p2;
         var.slave_only = again.slave_only;
         var.master_only = again.master_only;
         var
@@ -524,7 +527,7 @@ impl World {
         let dir = std::env::temp_dir().join(format!("vcheck-e2e-{}-{}", std::process::id(), GEN.fetch_add(1, std::sync::atomic::Ordering::Relaxed)));
         std::fs::create_dir_all(&dir).map_err(|e| e.to_string())?;
         let cfg = format!(
-            "loglevel = \"{ll}\"\nsdo-id = {sdo}\ndomain = {dom}\npriority1 = {p1}\nidentity = \"001b19aa0001beef\"\nvirtual-system-clock = true\npath-trace = {}\n{inst}\n[[port]]\ninterface = \"a0\"\nnetwork-mode = \"{nm}\"\nhardware-clock = \"none\"\nannounce-interval = {l}\nsync-interval = {l}\ndelay-interval = -2\ndelay-mechanism = \"{dm}\"\n{aml}{xa}\n[[port]]\ninterface = \"b0\"\nnetwork-mode = \"{nm}\"\nhardware-clock = \"none\"\nannounce-interval = {lb}\nsync-interval = {l}\ndelay-interval = -2\ndelay-mechanism = \"{dm}\"\n{aml}{xb}\n[observability]\nobservation-path = \"{}\"\n",
+            "loglevel = \"{ll}\"\nsdo-id = {sdo}\ndomain = {dom}\npriority1 = {p1}\npriority2 = {p2}\nidentity = \"001b19aa0001beef\"\nvirtual-system-clock = true\npath-trace = {}\n{inst}\n[[port]]\ninterface = \"a0\"\nnetwork-mode = \"{nm}\"\nhardware-clock = \"none\"\nannounce-interval = {l}\nsync-interval = {l}\ndelay-interval = -2\ndelay-mechanism = \"{dm}\"\n{aml}{xa}\n[[port]]\ninterface = \"b0\"\nnetwork-mode = \"{nm}\"\nhardware-clock = \"none\"\nannounce-interval = {lb}\nsync-interval = {l}\ndelay-interval = -2\ndelay-mechanism = \"{dm}\"\n{aml}{xb}\n[observability]\nobservation-path = \"{}\"\n",
             path_trace,
             dir.join("obs.sock").display(),
             l = ANN_LOG,
@@ -534,6 +537,7 @@ impl World {
             sdo = variant.sdo,
             dom = variant.domain,
             p1 = variant.own_p1,
+            p2 = variant.own_p2,
             inst = if variant.slave_only { "slave-only = true\n" } else { "" },
             xa = if variant.master_only == Some(if variant.swap { 'b' } else { 'a' }) { "master-only = true\n" } else { "" },
             xb = if variant.master_only == Some(if variant.swap { 'a' } else { 'b' }) { "master-only = true\n" } else { "" },
@@ -2280,8 +2284,8 @@ pub fn case_c05(w: &mut World, t: &mut Tape) -> E2eOut {
     for k in 0..ngm {
         let mut a = simple_announce([0x00, 0x1b, 0x19, 0xb0, 0, 0, k as u8, *t.pick(&[1u8, 2, 3, 0xfe])], *t.pick(&[50u8, 99, 100, 100, 101, 127, 128, 129, 200]), *t.pick(&[6u8, 7, 248, 255]), 0);
         a.gm_accuracy = *t.pick(&[0x20u8, 0x21, 0x22, 0xfe]);
-        a.gm_variance = *t.pick(&[0x3fffu16, 0x4000, 0x4001, 0xffff]);
-        a.gm_priority2 = *t.pick(&[127u8, 128, 129]);
+        a.gm_variance = *t.pick(&[0x3fffu16, 0x4000, 0x4001, 0x7fff, 0x8000, 0xffff]);
+        a.gm_priority2 = *t.pick(&[126u8, 127, 128, 129, 130]);
         gms.push(a);
     }
     // (segment, sender, announce)
@@ -2339,7 +2343,8 @@ pub fn case_c05(w: &mut World, t: &mut Tape) -> E2eOut {
             return Err("not two ports".into());
         }
         let dd = &i.default_ds;
-        let d0 = DsView::d0(dd.clock_identity.0, dd.priority_1, dd.clock_quality.clock_class, dd.clock_quality.clock_accuracy.to_primitive(), dd.clock_quality.offset_scaled_log_variance, dd.priority_2);
+        // D0: identity and priorities as configured (not as reported), the clock quality as reported (not configurable)
+        let d0 = DsView::d0(w.own_identity, w.variant.own_p1, dd.clock_quality.clock_class, dd.clock_quality.clock_accuracy.to_primitive(), dd.clock_quality.offset_scaled_log_variance, w.variant.own_p2);
         let mut ca: Vec<Cand> = cand_list.iter().filter(|s| s.0 == 'a').map(|s| s.1).collect();
         if parent_on {
             ca.push(Cand { sender: PARENT, ann: w.parent_ann });
@@ -2358,6 +2363,9 @@ pub fn case_c05(w: &mut World, t: &mut Tape) -> E2eOut {
         }).collect();
         let got = [format!("{:?}", i.port_ds[w.slave_idx].port_state), format!("{:?}", i.port_ds[1 - w.slave_idx].port_state)];
         let mut diffs = vec![];
+        if dd.priority_1 != w.variant.own_p1 || dd.priority_2 != w.variant.own_p2 || dd.clock_identity.0 != w.own_identity {
+            diffs.push(format!("defaultDS reports identity {:02x?} priority1 {} priority2 {} where {:02x?} / {} / {} are configured", dd.clock_identity.0, dd.priority_1, dd.priority_2, w.own_identity, w.variant.own_p1, w.variant.own_p2));
+        }
         for k in 0..2 {
             if !got[k].starts_with(want[k]) {
                 diffs.push(format!("port on the {} segment is {} where the state decision ({:?}) gives {}", if k == 0 { "first" } else { "second" }, got[k].split('(').next().unwrap_or(""), dec.codes[k], want[k]));
@@ -3745,6 +3753,7 @@ pub fn worker_main(args: &[String]) -> i32 {
             o.insert("acceptable_master_list".into(), json!(variant.aml));
             o.insert("delay_asymmetry_ns".into(), json!(variant.asym_ns));
             o.insert("own_priority1".into(), json!(variant.own_p1));
+            o.insert("own_priority2".into(), json!(variant.own_p2));
             o.insert("slave_only".into(), json!(variant.slave_only));
             o.insert("master_only_port_on_segment".into(), json!(variant.master_only.map(|c| c.to_string())));
         }
